@@ -9,9 +9,11 @@ import (
 	"bufio"
 	"bytes"
 	"fmt"
+	"io"
 	"strconv"
 	"strings"
 	"testing"
+	"testing/iotest"
 
 	"github.com/Ptt-official-app/go-pttbbs/cmbbs"
 	"github.com/Ptt-official-app/go-pttbbs/cmsys"
@@ -81,6 +83,7 @@ func FuzzC18(f *testing.F) {
 		{"", ""}, {"\n", ""}, {"\x1b[", "a"}, {"\x1b[1;3", ";"}, {"a\x1b[1;31mb\x1b[2Jc\x1b7d", "m"}, {"\xa4\xa4\xa4", "\xa4"},
 		{"Re: Fw: [\xc2\xe0\xbf\xfd] \xa4\xa4", "re:"}, {"a\r\n\r\nb\r", "\r"}, {"abc\x00def", "c\x00"}, {"[\xef\xbf\xbd\xfe\xa4\xa4]x", ""},
 		{"\x1b[1A\x1b[;H\x1b[0m", "A"}, {"a b  ", " "}, {"\x00", "\x00"}, {"SYSOP", "sysop"},
+		{"SYSOP\n\nguest\nteemocogs-123456789\nlast\n", "\x19\x00\x00"}, {"0123456789abcdefXYZ\r\nnext", "\x10\x10\x01"},
 	}
 	for _, s := range seeds {
 		f.Add([]byte(s[0]), []byte(s[1]))
@@ -117,6 +120,69 @@ func FuzzC18(f *testing.F) {
 			}
 			return ""
 		})
+		// ReadLine over a reader that fails once with a non-EOF error somewhere in the stream (b0 picks where, how the
+		// bytes are cut into Reads and how the error is delivered): a caller looping on err == nil gets exactly the
+		// complete lines in front of the error, then that error
+		if len(b0) >= 3 {
+			pos := int(b0[0]) % (len(a0) + 1)
+			chunk, mode := int(b0[1])%40, int(b0[2])%5
+			ev := make([]int64, 0, len(a0)+1)
+			evs := make([]string, 0, len(a0)+1)
+			for i, c := range a0 {
+				if i == pos {
+					ev = append(ev, 257)
+					evs = append(evs, "257")
+				}
+				ev = append(ev, int64(c))
+				evs = append(evs, strconv.Itoa(int(c)))
+			}
+			if pos == len(a0) {
+				ev = append(ev, 257)
+				evs = append(evs, "257")
+			}
+			chunks := ""
+			if chunk > 0 {
+				chunks = strconv.Itoa(chunk)
+			}
+			fz(t, fmt.Sprintf("26|%s|%d|%s|16 %d", strings.Join(evs, " "), bytes.Count(a0, []byte{'\n'})+4, chunks, mode), func() string {
+				er := &c18EvReader{ev: ev, withErr: mode == 1}
+				if chunk > 0 {
+					er.chunks = []int64{int64(chunk)}
+				}
+				var rd io.Reader = er
+				switch mode {
+				case 2:
+					rd = iotest.OneByteReader(er)
+				case 3:
+					rd = iotest.HalfReader(er)
+				case 4:
+					rd = iotest.DataErrReader(er)
+				}
+				br := bufio.NewReaderSize(rd, 16)
+				whole := a0[:pos]
+				whole = whole[:bytes.LastIndexByte(whole, '\n')+1]
+				want := bytes.Split(whole, []byte{'\n'})
+				want = want[:len(want)-1]
+				for i := 0; ; i++ {
+					line, err := types.ReadLine(br)
+					if err != nil {
+						if err != c18ErrIO {
+							return fmt.Sprintf("the read error came back as %v", err)
+						}
+						if i != len(want) {
+							return fmt.Sprintf("%d lines before the read error, expected %d", i, len(want))
+						}
+						return ""
+					}
+					if i >= len(want) {
+						return fmt.Sprintf("%q returned with a nil error: not a complete line in front of the read error", line)
+					}
+					if !bytes.Equal(line, bytes.TrimSuffix(want[i], []byte{'\r'})) {
+						return fmt.Sprintf("line %d is %q, expected %q", i+1, line, want[i])
+					}
+				}
+			})
+		}
 		// StripAnsi
 		for flag := 0; flag < 3; flag++ {
 			fz(t, fmt.Sprintf("13|%s|%d", A, flag), func() string {
